@@ -25,7 +25,7 @@ from typing import (
 
 import kiwipy
 
-from . import lang, mixins, persistence, process_states, processes
+from . import exceptions, lang, mixins, persistence, process_states, processes
 from .utils import PID_TYPE, SAVED_STATE_TYPE
 
 __all__ = ['ToContext', 'WorkChain', 'WorkChainSpec', 'if_', 'return_', 'while_']
@@ -99,6 +99,9 @@ class Waiting(process_states.Waiting):
         key = self._awaiting.pop(awaitable)
         try:
             self.process.ctx[key] = awaitable.result()  # type: ignore
+        except asyncio.CancelledError:
+            # The awaited future was cancelled (a child process killed by cancelling its future): that is a killed item
+            self._deliver(False, exceptions.KilledError(f"The awaited item '{key}' was cancelled"))
         except Exception as exception:
             self._deliver(False, exception)
         else:
